@@ -119,6 +119,21 @@ def fdMatrix [Zero α] [One α] [Sub α] (c : FDCfg) (n : Nat) : M α := fun i j
 
 end FD
 
+
+/-! ## Two-point circular sum (`scico/functional/_tvnorm.py: SingleAxisFiniteSum`, used by the Haar transform) -/
+
+section FSum
+variable {α : Type}
+
+/-- `SingleAxisFiniteSum._eval`: `x + roll(x, -1)` on a 1-d array of length `n` -/
+def fsumEval [Add α] (n : Nat) (x : V α) : V α := fun i => x i + x ((i + 1) % n)
+
+/-- documented matrix: ones on the diagonal and the (circular) superdiagonal -/
+def fsumMatrix [Add α] [Zero α] [One α] (n : Nat) : M α := fun i j =>
+  (if j = i then (1 : α) else 0) + (if j = (i + 1) % n then (1 : α) else 0)
+
+end FSum
+
 /-! ## Lifting a 1-d map to one axis of an N-d row-major array -/
 
 section Axis
